@@ -261,42 +261,36 @@ func runC18(c *Ctx) {
 		}
 		checkPageInvariant(c, "R7")
 	}
-	// ---------- R7 page slicing bounded by the page length ----------
+	// ---------- R9 the READ buffer has the same length with and without the allocator ----------
+	// (the slicing of the page itself is proved within bounds by R7 above; a clamp to the page length would be safe
+	// but makes a READ longer than a page come back shorter than without the allocator)
 	if gds := p.Func("(*sshFxpReadPacket).getDataSlice"); gds != nil {
-		for _, gp := range callsWhere(gds, func(cc *ssa.CallCommon) bool { return calleeName(cc) == "GetPage" }) {
-			page := gp.(*ssa.Call)
-			// every slice of the page has a High that is clamped by len(page)
-			for _, r := range *page.Referrers() {
-				s, ok := r.(*ssa.Slice)
-				if !ok || s.X != ssa.Value(page) {
-					continue
+		var lens []ssa.Value
+		var where []ssa.Instruction
+		for _, rl := range returnLeaves(gds, 0) {
+			switch x := rl.v.(type) {
+			case *ssa.Slice:
+				if x.High != nil {
+					lens = append(lens, stripConv(x.High))
+					where = append(where, x)
 				}
-				bounded := false
-				if s.High == nil {
-					bounded = true
-				} else {
-					// High must be a phi with an edge equal to len(page) taken under High' > len(page)
-					for _, l := range leavesOfIface(s.High) {
-						_ = l
-					}
-					h := s.High
-					if cv, ok := h.(*ssa.Convert); ok {
-						h = cv.X
-					}
-					if ph, ok := h.(*ssa.Phi); ok {
-						for _, e := range ph.Edges {
-							t := affineOf(e)
-							for k := range t.coef {
-								if strings.HasPrefix(k, "len(") && strings.Contains(k, page.Name()) {
-									bounded = true
-								}
-							}
-						}
-					}
-				}
-				c.check(bounded, "R7", "getDataSlice page slice", pos(s), "slice length clamped to len(page)", "an allocator page is sliced by a length that is not bounded by the page size: READ with a large Len panics the server when maxTxPacket exceeds 256 KiB")
+			case *ssa.MakeSlice:
+				lens = append(lens, stripConv(x.Len))
+				where = append(where, x)
 			}
 		}
+		same := len(lens) >= 2
+		for _, l := range lens {
+			if l != lens[0] {
+				same = false
+			}
+		}
+		posS := p.Pos(gds.Pos())
+		if len(where) > 0 {
+			posS = pos(where[0])
+		}
+		c.check(same, "R9", "getDataSlice length is allocator independent", posS, "page[:n] and make([]byte, n) use the same n",
+			"the buffer for a READ has another length with the allocator than without it (the page path clamps or computes its own length): the same READ is answered with fewer bytes, and this package's client takes a short DATA for end of file")
 	}
 }
 
